@@ -37,6 +37,12 @@ class Pipe:
         self.paused = False
         self.written = 0
         self.prod_paused = False    # we told the registered producer to pause (send buffer "full")
+        self.t0 = self.now()        # when the link came up
+        self.last_rx = None         # when bytes were last delivered to our protocol
+
+    def now(self):
+        clk = getattr(self.net, "clock", None)
+        return clk.seconds() if clk is not None else 0.0
 
     def write(self, data):
         if not self.closed and not self.lost:
@@ -62,6 +68,11 @@ class Pipe:
         if not self.closed:
             self.closed = True
             self.net.closing.append(self)
+            # observation for C16: a Manager hanging up on the connection it is using, and for how long that connection had been quiet by then
+            p = getattr(self.proto, "_wrappedProtocol", self.proto)
+            m = getattr(p, "_manager", None)
+            if m is not None and getattr(m, "_connection", None) is p:
+                self.net.inuse_drops.append(dict(link=self.link, manager=m, at=self.now(), quiet=self.now() - (self.last_rx if self.last_rx is not None else self.t0)))
 
     def abortConnection(self):
         self.loseConnection()
@@ -110,12 +121,15 @@ class Net:
         self.closing = []
         self.nlinks = 0
         self.throttle = False
+        self.inuse_drops = []   # Managers that hung up on the connection they were using (see Pipe.loseConnection)
+        self.clock = None
 
 
 class Reactor(Clock):
     def __init__(self, net):
         Clock.__init__(self)
         self.net = net
+        net.clock = self
 
     def listenTCP(self, port, factory, backlog=50, interface=""):
         p = self.net.next
@@ -157,10 +171,16 @@ class Sender:
     def __init__(self):
         self.out = deque()
         self.log = []
+        self.types = []
 
     def send(self, phase, plaintext):
         self.out.append((phase, plaintext))
         self.log.append(phase)
+        try:
+            import json
+            self.types.append(json.loads(plaintext.decode("utf-8")).get("type"))
+        except Exception:
+            self.types.append(None)
 
     def got_verified_key(self, key):
         pass
@@ -322,6 +342,7 @@ class DWorld:
             pipe.buf.clear()
             return False
         d = pipe.buf.popleft()
+        pipe.last_rx = pipe.now()
         if nbytes is not None and nbytes < len(d):
             pipe.buf.appendleft(d[nbytes:])
             d = d[:nbytes]
@@ -347,6 +368,22 @@ class DWorld:
                         x.proto.connectionLost(failure.Failure(error.ConnectionDone()))
                 self.net.links.remove((a, b))
         self.net.closing = [t for t in self.net.closing if t.link != link]
+
+    def lose_end(self, link, end):
+        """the loss of a link is reported to ONE end only (each end's TCP stack notices on its own: the peer of a host that went silent keeps its
+        socket until its own time-out); the other end's report follows later (`lose_end` again, or `lose`)"""
+        for (a, b) in list(self.net.links):
+            if a.link == link:
+                for x in (a, b):
+                    if x.end == end and not x.lost:
+                        x.lost = True
+                        x.closed = True
+                        x.buf.clear()
+                        x.peer.closed_by_peer = True
+                        x.proto.connectionLost(failure.Failure(error.ConnectionDone()))
+                if a.lost and b.lost:
+                    self.net.links.remove((a, b))
+        self.net.closing = [t for t in self.net.closing if not t.lost]
 
     def turn(self):
         self.reactor.advance(0)
